@@ -185,14 +185,6 @@ extern "C" void h_setget(int ver, int skinned, int wrongSize, int nsym) {
 	std::vector<Vector3> after2;
 	nif.GetVertsForShape(s, after2);
 	sym_assert(after2.size() == after.size() && memcmp(after2.data(), after.data(), after.size() * 12) == 0, "C13-setuv-others: setting UVs changed the vertices");
-	// triangles
-	std::vector<Triangle> nt = {Triangle(2, 1, 0), Triangle(1, 2, 3)};
-	s->SetTriangles(nt);
-	if (skinned)
-		nif.UpdateSkinPartitions(s); // changing the topology of a skinned shape requires rebuilding its partitions
-	std::vector<Triangle> gt;
-	s->GetTriangles(gt);
-	sym_assert(gt.size() == 2 && memcmp(gt.data(), nt.data(), 12) == 0, "C13-settris: GetTriangles does not return what SetTriangles stored");
 	// what was set is what a save + reload returns (bit-exact, or through the half kernels where halves are stored)
 	sym_reach("loaded");
 	FmRange f = fm_save(nif, true);
@@ -227,15 +219,33 @@ extern "C" void h_setget(int ver, int skinned, int wrongSize, int nsym) {
 					sym_assert(fbits(out[k]) == fbits(halfUv ? through_half(in[k]) : in[k]), "C13-set-reload-uvs: UVs set through the API are not what is read back after save+reload");
 				}
 			}
-		std::vector<Triangle> rt;
-		rs->GetTriangles(rt);
-		// (a skinned SSE shape stores its triangles in the skin partitions, corner-rotated: same triangles, same order)
-		sym_assert(rt.size() == 2, "C13-set-reload-tris: triangle count differs after save+reload");
-		for (size_t i = 0; i < 2 && i < rt.size(); i++) {
-			Triangle a = rt[i], b = nt[i];
-			a.rot();
-			b.rot();
-			sym_assert(a.p1 == b.p1 && a.p2 == b.p2 && a.p3 == b.p3, "C13-set-reload-tris: triangles set through the API are not what is read back after save+reload");
+	}
+	// triangles: set, read back, and read back after another save + reload
+	std::vector<Triangle> nt = {Triangle(2, 1, 0), Triangle(1, 2, 3)};
+	s->SetTriangles(nt);
+	if (skinned)
+		nif.UpdateSkinPartitions(s); // changing the topology of a skinned shape requires rebuilding its partitions
+	std::vector<Triangle> gt;
+	s->GetTriangles(gt);
+	sym_assert(gt.size() == 2 && memcmp(gt.data(), nt.data(), 12) == 0, "C13-settris: GetTriangles does not return what SetTriangles stored");
+	{
+		FmRange f2 = fm_save(nif, true);
+		NifFile re2;
+		int rc2 = fm_load(re2, f2);
+		sym_assert(rc2 == 0, "C13-set-reload: model does not reload after SetTriangles");
+		NiShape* rs = re2.FindBlockByName<NiShape>("Shape");
+		sym_assert(rs != nullptr, "C13-set-reload-shape: shape missing after reload");
+		if (rs) {
+			std::vector<Triangle> rt;
+			rs->GetTriangles(rt);
+			// (a skinned SSE shape stores its triangles in the skin partitions, corner-rotated: same triangles, same order)
+			sym_assert(rt.size() == 2, "C13-set-reload-tris: triangle count differs after save+reload");
+			for (size_t i = 0; i < 2 && i < rt.size(); i++) {
+				Triangle a = rt[i], b = nt[i];
+				a.rot();
+				b.rot();
+				sym_assert(a.p1 == b.p1 && a.p2 == b.p2 && a.p3 == b.p3, "C13-set-reload-tris: triangles set through the API are not what is read back after save+reload");
+			}
 		}
 	}
 	sym_reach("end");
